@@ -1,5 +1,6 @@
 """C10 (moments), C11 (PP/PPV statistics), C12 (catalogs), C13 (flux)."""
 import itertools
+import os
 import math
 import warnings
 from fractions import Fraction
@@ -236,6 +237,24 @@ def eval_C10(item):
         want = R.dot(covf).dot(R.T)
         if G.shape != want.shape or not np.allclose(G, want, rtol=0, atol=1e-9 * span * span):
             res['pred'].append('mom2_along(%r) = %r, quadratic forms of the normalised rows give %r' % (rows, G.tolist(), want.tolist()))
+        # a matrix handed out belongs to the caller: change it in place (normalise, sort, ...), then ask for the same
+        # directions at other lengths and as lists.  (Asking again with the *same* hashable argument returns the memoised
+        # array itself in the code as it is; the property speaks about other arguments evaluated before.)
+        with warnings.catch_warnings():
+            warnings.simplefilter('ignore')
+            for ask_ in (lambda: stm.mom2_along(tuple(tuple(r) for r in rows)),
+                         lambda: stm.mom2_along(tuple(tuple(3 * x for x in r) for r in rows)),
+                         lambda: stm.mom2_along([list(r) for r in rows])):
+                try:
+                    impl.use_up(ask_())
+                except Exception:
+                    pass
+            G2 = np.atleast_2d(np.array(stm.mom2_along(tuple(tuple(2 * x for x in r) for r in rows)), dtype=float))
+            G3 = np.atleast_2d(np.array(stm.mom2_along([list(r) for r in rows]), dtype=float))
+        if G2.shape != want.shape or not np.allclose(G2, want, rtol=0, atol=1e-9 * span * span) or \
+                G3.shape != want.shape or not np.allclose(G3, want, rtol=0, atol=1e-9 * span * span):
+            res['pred'].append('mom2_along(%r) after the caller changed results for other arguments in place: %r / %r, expected %r' % (
+                rows, G2.tolist(), G3.tolist(), want.tolist()))
         # projection onto a subspace: principal axes do not depend on the lengths of the projection rows
         for nr in (2, 3):
             if nd < 3 or nr > nd:
@@ -421,10 +440,14 @@ def gen_item_C13(rng, idx, tier):
     return item
 
 
-def flux_call(fam, vals, unit, out, meta):
+def flux_call(fam, vals, unit, out, meta, as_column=False):
     from astrodendro.flux import compute_flux
     with warnings.catch_warnings():
         warnings.simplefilter('ignore')
+        if as_column:
+            # the values as a table column with a unit (what a catalog hands back), not a Quantity
+            from astropy.table import Column
+            return compute_flux(Column(np.array(vals), unit=unit), out, **meta)
         return compute_flux(np.array(vals) * unit, out, **meta)
 
 
@@ -591,6 +614,15 @@ def eval_C13(item):
     r3 = float(flux_call(fam, vals2, unit2, out, meta2).value)
     if not close(r3, got, got, 1e-8):
         res['pred'].append('depends on the units equal inputs are expressed in: %r (%s) vs %r (%s)' % (r3, unit2, got, unit))
+    # the same inputs as a table column carrying its unit (in both unit spellings)
+    if len(vals):
+        try:
+            rc1 = float(flux_call(fam, vals, unit, out, meta, as_column=True).value)
+            rc2 = float(flux_call(fam, vals2, unit2, out, meta2, as_column=True).value)
+            if not close(rc1, got, got, 1e-8) or not close(rc2, got, got, 1e-8):
+                res['pred'].append('values given as a table column with unit %s / %s: %r / %r, as a Quantity %r' % (unit, unit2, rc1, rc2, got))
+        except Exception as e:
+            res['pred'].append('values given as a table column with a unit raised %s: %s' % (type(e).__name__, str(e)[:100]))
     # the SAME numbers in OTHER units are other physical inputs: a later call in the same process gets the
     # textbook value for those (nothing of an earlier call with equal numbers is reused)
     def textbook(lam_, pix_, bmaj_, bmin_):
@@ -923,6 +955,10 @@ def gen_item_C12(rng, idx, tier):
         # a long periodic axis (a survey strip): a structure straddling the edge, far more columns than a byte holds
         L = rng.choice([171, 200, 250, 255, 256, 300])
         r_ = rng.choice([1, 2, 3])
+        if rng.random() < 0.12 * float(os.environ.get('VERIF_LONG_AXIS', '0')) / 0.004:
+            # ... and more than 16 bits hold (signed or unsigned)
+            L = rng.choice([32770, 33000, 40000, 65540, 70000])
+            r_ = 1
         case = gen.gen_compute_case(rng, force={'shape': [r_, L], 'periodic': [1], 'layout': 'C'})
         case['per_as_list'] = False
         case['dtype'] = 'float64'
@@ -930,7 +966,7 @@ def gen_item_C12(rng, idx, tier):
         k = [0] * (r_ * L)
         w1, w2 = rng.randint(1, 6), rng.randint(1, 10)
         cols = list(range(L - w1, L)) + list(range(0, w2))
-        mid = rng.randint(30, L - 40)
+        mid = rng.randint(30, L - 40) if L < 1000 else rng.choice([32760, 32768, L - 200, L // 2])
         for c_ in cols + list(range(mid, mid + rng.randint(1, 5))):
             for row in range(r_):
                 if rng.random() < 0.85:
